@@ -150,7 +150,19 @@ func RunElection(w *World, idx int) {
 			w.Fail("C09", "no-start-signal-with-majority", fmt.Sprintf("%d of %d registered (quorum %d), no leader, but registration of %s did not signal anyone", len(known), w.RF, quorum, f.IP))
 			return
 		}
-		// (iii) only the signalled replica can start the volume
+		// (iii) only the signalled replica can start the volume - also not one whose address merely begins like the elected one's
+		if post.StartSignalled && r.Chance(30) {
+			if look := w.NewFakeAt(post.MaxRevReplica+fmt.Sprint(r.Intn(5)), 1); look != nil {
+				s := w.rec(Step{K: "start-by-lookalike-address", Addr: look.Addr})
+				err := w.C.Start(look.Addr)
+				w.Res.Count("foreign_start_attempts", 1)
+				if now := w.C.VerifState(); err == nil || len(now.Replicas) > 0 {
+					w.Fail("C09", "start-accepted-from-non-elected:lookalike-address", fmt.Sprintf("Start(%s) accepted (err=%v) although %s was signalled", look.Addr, err, post.MaxRevReplica))
+					return
+				}
+				s.Res = err.Error()
+			}
+		}
 		if post.StartSignalled && r.Chance(50) {
 			for _, o := range fs {
 				if o.IP != post.MaxRevReplica && o.Alive {
